@@ -14,6 +14,9 @@
 #         on the scanner, on a clone made before the sequence (other thread), on a clone made after, and once more
 #         at the end — must give the FULL result (match details included) of a scanner compiled for that scan alone
 #                                                                                                    [exploration]
+#   nest  re-entrancy on one thread: a scan started from inside the RuleMatch callback of another scan (same scanner,
+#         a clone, another scanner), rules reading per-scan caches after the callback; references = each scan alone
+#         on a scanner compiled for it                                                                [exploration]
 import hashlib, json, os, re
 from .. import core
 from ..core import gN, gZ, gbool, glist, gbytes, gopt, gpair, gstr
@@ -134,8 +137,13 @@ class C13(Prop):
             "seq: 6-15 scans of 3-7 inputs (small inputs decided by filesize alone but holding strings a full scan "
             "would report, big inputs needing the scan; default parameters 3 times out of 4), or 30-45 different "
             "2.8-3.8 KB inputs for /xy[ab]*a[ab]{17..19}c/ (thousands of unshared DFA states each); every result "
-            "compared, match details included, with a scanner compiled for that scan alone.  Non-trivial: hist with a clone and a "
-            "state-changing operation; hash with a repeated range; conc with >= 2 threads; seq with >= 2 different inputs; distinct by content.")
+            "compared, match details included, with a scanner compiled for that scan alone; two sequences out of "
+            "three read all their inputs from ONE buffer overwritten in place (same address), with a family of "
+            "equal-length inputs for regexes with a repetition left of the atom (/a.*bcd.z/ ...).  nest: a callback-API "
+            "scan whose k-th / every RuleMatch callback runs, on the same thread, a scan of another input of the "
+            "same size (list or callback API, optionally one level deeper) on the same scanner / a clone / another "
+            "scanner; hash.* over identical ranges, counts, pe/elf/macho values read after the callback.  Non-trivial: hist with a clone and a "
+            "state-changing operation; hash with a repeated range; conc with >= 2 threads; seq with >= 2 different inputs; nest where an inner scan really ran; distinct by content.")
     TRUSTED = ["Coq 8.16.1 kernel + vm_compute",
                "harness/src/bin/c13.rs (runs the real Scanner API; probe scans, tagged console callbacks, thread "
                "scope with barrier and seeded yields)",
@@ -462,6 +470,29 @@ class C13(Prop):
     # ================================================================ generation: seq
     def gen_seq(self, rng, thrash):
         """sequences of different inputs on one scanner; reference = a scanner compiled for that one scan"""
+        if thrash == "buffer":
+            # ONE read buffer overwritten in place: same address (and mostly same length), different bytes; regexes
+            # with a repetition left of the atom (reverse search to the start, then forward validation from it)
+            specs = [("a", b"-.:", "bcd", "-z", "-y", "/a.*bcd.z/", 3), ("x", b"0123456789", "needle", "-k", "-j", "/x[0-9]*needle.k/", 1),
+                     ("q", b"- 0123", "mark", "7y", "7w", "/q.+mark[0-9]y/", 2), ("a", b"-.:", "bcd", "-z", "-y", "/a.*?bcd.z/", 3)]
+            lines = ["rule b%d { strings: $r = %s condition: $r }" % (i, sp[5]) for i, sp in enumerate(specs)]
+            head, mid_alpha, atom, ok, bad, _, maxocc = rng.choice(specs)
+            nocc = rng.range(1, maxocc)
+            lens = [rng.range(0, 6)] + [rng.range(1 if head == "q" else 0, 8)] + [rng.range(0, 6) for _ in range(nocc)]
+            inputs = []
+            for _ in range(rng.range(3, 6)):
+                b = bytearray(rng.bytes(lens[0], b"-_ "))
+                b += (head.encode() if rng.chance(4, 5) else b"-")
+                b += rng.bytes(lens[1], mid_alpha)
+                for o in range(nocc):
+                    b += atom.encode() + (ok if rng.chance(1, 2) else bad).encode()
+                    b += rng.bytes(lens[2 + o], b"-_ " if o + 1 < nocc or head != "x" else b"-_ ")
+                inputs.append(bytes(b))
+            if rng.chance(1, 4):
+                inputs.append(inputs[0] + b"--")            # same address, another length
+            order = [rng.below(len(inputs)) for _ in range(rng.range(6, 14))]
+            return {"kind": "seq", "family": "buffer", "rules": [{"ns": None, "src": "\n".join(lines)}],
+                    "inputs": [b.hex() for b in inputs], "order": order, "reuse_buffer": True}
         if thrash:
             # state-hungry regexes: the lazy-DFA cache of the validator (shared through the pool, reused from scan
             # to scan) is filled and cleared many times by inputs that share no DFA state
@@ -476,7 +507,7 @@ class C13(Prop):
                        "mid": b"a".hex(), "tail": k, "end": b"c".hex()} for _ in range(ninputs)]
             order = list(range(ninputs)) + [0, ninputs - 1]
             return {"kind": "seq", "family": "thrash", "rules": [{"ns": None, "src": "\n".join(lines)}],
-                    "inputs": inputs, "order": order, "must_match": ["tail"]}
+                    "inputs": inputs, "order": order, "must_match": ["tail"], "reuse_buffer": rng.chance(1, 2)}
         # inputs decided without the string scan mixed with inputs that need it; default parameters mostly
         lines = ['rule s0 { strings: $a = "abc" condition: filesize < 5 or $a }',
                  'rule s1 { strings: $a = "marker" $b = /m[a-z]{2}ker[0-9]?/ condition: filesize > 40 and ($a or $b) }',
@@ -508,11 +539,67 @@ class C13(Prop):
         if rng.chance(1, 2):
             order = rng.shuffle(order)
         case = {"kind": "seq", "family": "noscan", "rules": [{"ns": None, "src": "\n".join(lines)}],
-                "inputs": [b.hex() for b in inputs], "order": order}
+                "inputs": [b.hex() for b in inputs], "order": order, "reuse_buffer": rng.chance(1, 2)}
         if rng.chance(1, 4):
             case["params"] = {"compute_full_matches": rng.chance(1, 2), "include_not_matched": rng.chance(1, 2),
                               "string_max_nb_matches": rng.choice([1, 2, 1000])}
         return case
+
+    # ================================================================ generation: nest
+    def gen_nest(self, rng):
+        """a scan started from inside the RuleMatch callback of another scan, same thread"""
+        words = [b"outer", b"inner", b"content", b"alpha", b"beta", b"needle", b"zzz"]
+        def mk(n):
+            b = b"PAYLOAD " + b" ".join(rng.choice(words) for _ in range(3)) + b" "
+            b += rng.bytes(max(0, n - len(b) - 8), b"abcdefghij 0123456789")
+            if rng.chance(1, 2):
+                b += b" PAYLOAD"
+            return (b + b"." * n)[:n]
+        assets = rng.chance(1, 5)
+        if assets:
+            fo, fi = rng.choice(MODULE_FILES), rng.choice(MODULE_FILES)
+            outer, inner = {"file": fo}, {"file": fi}
+            X, Y = open(fo, "rb").read(), open(fi, "rb").read()
+        else:
+            n = rng.range(30, 120)
+            X = mk(n)
+            Y = mk(n if rng.chance(4, 5) else n + rng.range(1, 9))
+            if rng.chance(1, 8):
+                Y = X
+            outer, inner = {"input": X.hex()}, {"input": Y.hex()}
+        h = lambda alg, d: getattr(hashlib, alg)(d).hexdigest()
+        st = 'strings: $a = "PAYLOAD" condition: $a and ' if not assets else "condition: "
+        lines = ['import "hash"'] + (['import "pe"', 'import "elf"', 'import "macho"'] if assets else [])
+        lines.append('rule first { %shash.md5(0, filesize) == "%s" }' % (st, h("md5", X)))
+        lines.append('rule inner { %shash.md5(0, filesize) == "%s" }' % (st, h("md5", Y)))
+        lines.append('rule second { %shash.md5(0, filesize) == "%s" and hash.sha1(0, filesize) == "%s" }'
+                     % (st, h("md5", X), h("sha1", X)))
+        lines.append('rule third { %shash.sha256(3, 9) == "%s" and hash.sha256(3, 9) != "%s" }'
+                     % (st, h("sha256", X[3:12]), h("sha256", b"?" + Y[3:12])))
+        lines.append('rule fourth { %shash.sha1(0, filesize) == "%s" and hash.crc32(0, filesize) == %d }'
+                     % (st, h("sha1", Y), __import__("zlib").crc32(Y)))
+        lines.append('rule fsz { %sfilesize == %d }' % (st, len(X)))
+        if assets:
+            lines.append("rule m0 { condition: pe.number_of_sections > 2 }")
+            lines.append("rule m1 { condition: elf.type == elf.ET_EXEC or elf.number_of_sections > 5 }")
+            lines.append("rule m2 { condition: pe.is_dll() or macho.filetype == 2 }")
+        else:
+            lines.append('rule cnt { strings: $a = "PAYLOAD" condition: #a == 2 }')
+            lines.append('rule rx { strings: $r = /PAY[A-Z]+ [a-z]+ / condition: $r and hash.md5(0, filesize) != "%s" }' % h("md5", Y))
+        lines.append('rule last { %shash.md5(0, filesize) == "%s" }' % (st, h("md5", X)))
+        lines2 = ['import "hash"',
+                  'rule o1 { %shash.md5(0, filesize) == "%s" }' % (st, h("md5", Y)),
+                  'rule o2 { %shash.sha1(0, filesize) == "%s" or hash.md5(0, filesize) == "%s" }' % (st, h("sha1", Y), h("md5", X)),
+                  'rule o3 { %shash.sha256(3, 9) == "%s" }' % (st, h("sha256", Y[3:12]))]
+        params = {"compute_full_matches": True if assets else rng.chance(1, 3), "events": rng.choice([1, 1, 3, 5])}
+        if params["events"] & 2:
+            params["include_not_matched"] = True
+        api = rng.choice(["list", "callback"])
+        return {"kind": "nest", "rules": [{"ns": None, "src": "\n".join(lines)}],
+                "rules2": [{"ns": None, "src": "\n".join(lines2)}], "outer": outer, "inner": inner,
+                "target": rng.choice(["same", "same", "clone", "other"]), "inner_api": api,
+                "at": rng.choice([[1], [1], [], [2], [1, 3]]), "deeper": api == "callback" and rng.chance(1, 2),
+                "params": params, "same_input": X == Y}
 
     # ================================================================ protocol
     def generate(self, ctx, rng, n):
@@ -524,12 +611,18 @@ class C13(Prop):
                 out.append(self.gen_hist(r))
             elif k < 12:
                 out.append(self.gen_hash(r))
-            elif k < 17:
+            elif k < 16:
                 out.append(self.gen_conc(r))
-            elif k < 19:
+            elif k == 16:
+                out.append(self.gen_nest(r))
+            elif k == 17:
                 out.append(self.gen_seq(r, False))
+            elif k == 18:
+                out.append(self.gen_seq(r, "buffer"))
+            elif i % 40 == 19:
+                out.append(self.gen_seq(r, True))             # the cache-thrashing family is the expensive one
             else:
-                out.append(self.gen_seq(r, i % 40 == 19))     # the cache-thrashing family is the expensive one
+                out.append(self.gen_nest(r))
         return out
 
     def budget(self, tier):
@@ -566,7 +659,11 @@ class C13(Prop):
                 ctx.count("conc jobs", len(c["jobs"]))
                 for j in c["jobs"]:
                     ctx.count("conc api=" + j["api"])
+            elif c["kind"] == "nest":
+                ctx.count("nest target=" + c["target"])
+                ctx.count("nest inner api=" + c["inner_api"] + ("+deeper" if c.get("deeper") else ""))
             elif c["kind"] == "seq":
+                ctx.count("seq reuse_buffer=%s" % bool(c.get("reuse_buffer")))
                 ctx.count("seq family=" + c.get("family", "?"))
                 ctx.count("seq scans", len(c["order"]))
             else:
@@ -849,6 +946,8 @@ class C13(Prop):
             if len(fresh) != n or len(out["seq"]) != len(case["order"]):
                 return (False, False, 0)
             ok = all("panic" not in f and f.get("error") is None for f in fresh)
+            if case.get("reuse_buffer") and out.get("buffer_addresses") != 1:
+                ok = False
             for name in case.get("must_match", []):
                 ok = ok and all(any(r["name"] == name and r["matched"] for r in f["rules"]) for f in fresh)
             same = all(e["res"] == fresh[e["input"]] for e in out["seq"])
@@ -856,6 +955,27 @@ class C13(Prop):
                 same = same and len(out[key]) == n and all(out[key][i] == fresh[i] for i in range(n))
             return (ok and same, ok and same, 0)
         except (KeyError, ValueError, TypeError, IndexError):
+            return (False, False, 0)
+
+    def term_nest(self, case, out):
+        try:
+            fo, fi, fol = out["flat_outer"], out["flat_inner"], out["flat_outer_list"]
+            no, ao, ai = out["nested_outer"], out["after_outer"], out["after_inner"]
+            if any("panic" in x or x.get("error") is not None for x in (fo, fi, fol, no, ao, ai)):
+                return (False, False, 0)
+            strip = lambda r: {k: v for k, v in r.items() if k != "inner"}
+            ok = no["events"] == fo["events"] and ao["events"] == fo["events"] and strip(ai) == strip(fi)
+            for r in no["inner"]:
+                if "panic" in r or strip(r) != strip(fi):
+                    ok = False
+                for d in r.get("inner", []):
+                    if d != fol:
+                        ok = False
+            # by construction: the outer input satisfies `first`, `second`, `last`, never `inner` unless the inputs are equal
+            got = [e["rule"]["name"] for e in no["events"] if e["ev"] == "match"]
+            spec = ok and all(n in got for n in ("first", "second", "last")) and (("inner" in got) == case["same_input"])
+            return (ok, spec, 0)
+        except (KeyError, ValueError, TypeError, IndexError, AttributeError):
             return (False, False, 0)
 
     def term(self, ctx, case, out):
@@ -867,6 +987,8 @@ class C13(Prop):
             return self.term_hash(case, out)
         if case["kind"] == "seq":
             return self.term_seq(case, out)
+        if case["kind"] == "nest":
+            return self.term_nest(case, out)
         return self.term_conc(case, out)
 
     def nontrivial(self, case, out):
@@ -875,6 +997,10 @@ class C13(Prop):
             ops = case["ops"]
             if any(o["op"] == "clone" for o in ops) and any(o["op"] in ("define", "params", "mdata") for o in ops):
                 return json.dumps([case["csymbols"], ops], sort_keys=True)
+            return None
+        if k == "nest":
+            if isinstance(out, dict) and out.get("nested_outer", {}).get("inner"):
+                return json.dumps([case["rules"], case["outer"], case["inner"], case["target"], case["inner_api"], case["at"]], sort_keys=True)
             return None
         if k == "seq":
             if len(set(case["order"])) >= 2:
@@ -894,6 +1020,8 @@ class C13(Prop):
         if case["kind"] == "conc":
             c["jobs"] = [{k: (v if k != "input" else v[:40] + "...") for k, v in j.items()} for j in case["jobs"][:4]]
             o = {"oracle_first": (out or {}).get("oracle", [None])[0]} if isinstance(out, dict) else out
+        elif case["kind"] == "nest":
+            o = {"nested_outer_events": [e.get("rule", {}).get("name") for e in (out or {}).get("nested_outer", {}).get("events", [])]} if isinstance(out, dict) else out
         elif case["kind"] == "seq":
             c["inputs"] = [(v if not isinstance(v, str) else v[:40] + "...") for v in case["inputs"][:4]]
             o = {"fresh_first": (out or {}).get("fresh", [None])[0]} if isinstance(out, dict) else out
